@@ -45,7 +45,7 @@ theorem record_congr {le₁ le₂ : Tid → Option ErrMsg} (t : Tid) (m : Option
 
 /-! ## Sequential prediction -/
 
-theorem instOps_cons_inst (i i' : Nat) (t : Tid) (o : IOp S.Cfg S.Chunk) (adv) (σ : List (Event S)) :
+theorem instOps_cons_inst (i i' : Nat) (t : Tid) (o : S.Call) (adv) (σ : List (Event S)) :
     instOps i ((⟨t, .inst i' o, adv⟩ : Event S) :: σ) = if i' = i then o :: instOps i σ else instOps i σ := rfl
 
 /-- From any world: instance `i`'s slot and observations after a schedule are the fold of the sequential step
